@@ -131,7 +131,7 @@ def check_history(case, stats):
             # prototype / clone pattern: every document gets a copy (copy.copy / copy.deepcopy / pickle round trip) of the one parser and of the one matcher (odd documents use the
             # prototypes themselves); copies share whatever the originals hold by reference
             import pickle
-            how = [copy.copy, copy.deepcopy, lambda o: pickle.loads(pickle.dumps(o))][(i // 2 + len(items)) % 3]
+            how = [copy.copy, copy.deepcopy, gh.pickle_clone][(i // 2 + len(items)) % 3]
             r = gh.parse(text, parser=parser if i % 2 else how(parser), matcher=matcher if i % 2 else how(matcher), stop=stop)
         else:
             r = gh.parse(text, parser=parser, matcher=matcher, stop=stop) if own else parse_default(parser, text, stop)
